@@ -835,7 +835,7 @@ class Controller(object):
             closest_points = closest_points[1:params("restarts.soft.num_geom_steps")+1]
             upper_limit = self.model.num_pts - 1
 
-        for i in range(min(params("restarts.soft.num_geom_steps"), upper_limit)):
+        for i in range(min(params("restarts.soft.num_geom_steps"), upper_limit, len(closest_points))):  # (fewer points while still growing)
             # Determine which point to update (knew)
             knew = closest_points[i]
 
